@@ -517,7 +517,7 @@ def tcpParseOpts : Nat → Bytes → Nat → Nat → OptsRes
         else match getU8 arr (i + 1) with
           | none => .fail
           | some length =>
-            if i + length > arr.length then .fail
+            if i + length > hdrLen then .fail          -- bounded by the header, not the segment (tcp.py:604, C15-4)
             else if length < 2 then .fail
             else if t = 30 then .mptcp
             else match tcpOptUnpack arr i t length with
